@@ -743,6 +743,12 @@ class Engine:
                             return self.eval(self.new_state(), c.class_attrs[attr])
                         finally:
                             self.cur_file = saved
+            if cls is not None and self.repo.cls(cls) is not None and not self.spec_mode and \
+                    self.field_type(mattr, cls) is None and mattr not in (self.class_fields(cls) or ()) and \
+                    attr not in self.ghost_fields.get(cls, ()):
+                # neither a method, a class attribute nor a field of the declared class (or its bases): AttributeError
+                # for an object of exactly that class (the declared element type of e.g. Solution.bestTrials is Trial)
+                self.oblige(state, False, "attribute", node, "an object of declared class %s has an attribute '%s'" % (cls, attr))
             return self.load(state, base, mattr, node)
         if isinstance(base, Opaque):
             return Builtin("opaque:" + attr)
